@@ -516,7 +516,10 @@ pub fn do_navigate_command_string(mathml: Element, nav_command: &'static str) ->
         let mut count = count-1;
         loop {
             // debug!("  ... loop count={}", count);
-            let (_, nav_command) = nav_state.top().unwrap();
+            let nav_command = match nav_state.top() {
+                None => break,      // nothing (more) to pop
+                Some( (_, nav_command) ) => nav_command,
+            };
             if (nav_command.starts_with("Move") || nav_command.starts_with("Zoom")) && nav_command != "MoveLastLocation" {
                 nav_state.pop();
             }
